@@ -33,8 +33,11 @@ UNIQUE = {'A': True, 'B': True, 'N': False, 'At': True, 'As': True}
 # At: a different class that happens to carry the same __name__ as A (another package's AuthMiddleware);
 # As: a subclass of A.  Both are types of their own for the merge rule.
 CLASSNAME = {'At': 'A'}
-REQ_PATHS = ['/x', '/x/', '/b', '/b/', '/b//', '/t', '/boom', '/m', '/zz', '/', '/own', '/t9']
+REQ_PATHS = ['/x', '/x/', '/b', '/b/', '/b//', '/t', '/boom', '/m', '/zz', '/', '/own', '/t9', '/f', '/f/']
 REQ_METHODS = ['GET', 'POST']
+
+
+THIS_FILE = os.path.abspath(__file__)
 
 
 def deadline_passed():
@@ -45,7 +48,8 @@ def deadline_passed():
 def inner_routes():
     return [{'pattern': '/x', 'endpoint': 'res'}, {'pattern': '/b/', 'endpoint': 'res'},
             {'pattern': '/t', 'endpoint': 'ctx', 'render': 'tmpl'}, {'pattern': '/boom', 'endpoint': 'boom'},
-            {'pattern': '/m', 'endpoint': 'res', 'methods': ['POST']}, {'pattern': '/x', 'endpoint': 'nb'}]
+            {'pattern': '/m', 'endpoint': 'res', 'methods': ['POST']}, {'pattern': '/x', 'endpoint': 'nb'},
+            {'pattern': '/f', 'endpoint': 'file'}]       # a StaticFileRoute (a Route subclass with a bind() of its own, if any)
 
 
 def own_routes(k):
@@ -256,6 +260,10 @@ class Builder(object):
                 if style != 'add0':
                     routes.append(sub_entry)
             for r in lv['routes']:
+                if r['endpoint'] == 'file':
+                    from clastic import StaticFileRoute
+                    routes.append(StaticFileRoute(r['pattern'], THIS_FILE))
+                    continue
                 routes.append(Route(r['pattern'], self.EPS[r['endpoint']], r.get('render'), methods=r.get('methods')))
             kw = {'error_handler': self.handler(k, k == 0 and lv.get('debug'), 'r' in lv['res'])}
             if style == 'early' and k > 0:
@@ -284,6 +292,14 @@ class Builder(object):
             if fr['render'] is not None and fr['render'][0] != 'noop':
                 render = self.factory(fr['render'][0])(fr['render'][1])
             route_mws = [insts[(n, k)] for n, k in fr['mws'] if k != 0]
+            if fr['endpoint'] == 'file':
+                from clastic import StaticFileRoute
+                rt = StaticFileRoute(fr['pattern'], THIS_FILE)
+                rt.slash_mode = fr['slash']
+                rt.middlewares = route_mws
+                rt.resources = dict(fr['res'])
+                app.add(rt, inherit_slashes=False)
+                continue
             rt = Route(fr['pattern'], self.EPS[fr['endpoint']], render, methods=fr['methods'], middlewares=route_mws,
                        resources=fr['res'], slash_mode=fr['slash'])
             app.add(rt, inherit_slashes=False)
